@@ -112,7 +112,8 @@ def coq_blocal(local):
     return "[" + "; ".join(f"({I.COLLS[c]}, [{'; '.join(cs(n) for n in ns)}])" for c, ns in local.items()) + "]"
 
 
-def gen_queries(rng, p, names, local):
+def gen_queries(rng, names, local):
+    """raw look-ups: ["use", n] | ["find", n, entity, child] | ["used", module, dict, n]"""
     names = sorted(names) + ["nosuch"] + [n for ns in local.values() for n in ns]
     qs = []
     for _ in range(rng.choice([4, 8, 12])):
@@ -120,18 +121,15 @@ def gen_queries(rng, p, names, local):
         n = rng.choice([n, n, n.upper(), n.lower()])
         r = rng.random()
         if r < 0.25:
-            qs.append((f"(QUse {cs(n)})", I.q_use(p, n)))
+            qs.append(["use", n])
         elif r < 0.8:
             ent = rng.choice(LINK_KEYS) if rng.random() < 0.4 else None
             child = None
             if rng.random() < 0.5:
-                child = (rng.choice(names), rng.choice(SUB_KEYS) if rng.random() < 0.4 else None)
-            ct = "None" if child is None else f"(Some ({cs(child[0])}, {copt(child[1], cs)}))"
-            qs.append((f"(QFind {cs(n)} {copt(ent, cs)} {ct})", I.q_find(p, n, ent, child)))
+                child = [rng.choice(names), rng.choice(SUB_KEYS) if rng.random() < 0.4 else None]
+            qs.append(["find", n, ent, child])
         else:
-            m = rng.choice(names)
-            w = rng.choice(["pub_procs", "pub_absints", "pub_types", "pub_vars"])
-            qs.append((f"(QUsed {cs(m)} {cs(w)} {cs(n)})", I.q_used(p, m, w, n)))
+            qs.append(["used", rng.choice(names), rng.choice(["pub_procs", "pub_absints", "pub_types", "pub_vars"]), n])
     return qs
 
 
@@ -201,11 +199,12 @@ def load_case(rng, descriptions, force=None):
                 payload, f = bad.encode(), "RBadJson"
             src = f"(SRemote {cs(value)} {f})"
         p, outcome = I.load(value, w.root, payload)
-        local, qs = {}, []
+        local, qs, raw = {}, [], []
         if outcome == "ok" and force:
             local = force.get("local", {})
             I.install_locals(p, local)
-            qs = forced_queries(p, force.get("queries", []))
+            raw = force.get("queries", [])
+            qs = forced_queries(p, raw)
         elif outcome == "ok":
             names = names_in(desc, set())
             pool = sorted(names) + ["own_a", "own_b"]
@@ -213,11 +212,12 @@ def load_case(rng, descriptions, force=None):
                 if rng.random() < 0.5:
                     local[c] = [rng.choice([n, n.upper()]) for n in rng.sample(pool, k=min(len(pool), rng.choice([1, 2, 3])))]
             I.install_locals(p, local)
-            qs = gen_queries(rng, p, names, local)
+            raw = gen_queries(rng, names, local)
+            qs = forced_queries(p, raw)
         term = (f"(CLoad {src} {'true' if mutated else 'false'} {I.coq_impl_out(p, outcome)} {coq_blocal(local)} "
                 f"[{'; '.join(f'({q}, {a})' for q, a in qs)}])")
     return term, {"what": "load", "source_kind": kind, "mutated": mutated, "external": value, "outcome": outcome,
-                  "raw_queries": (force or {}).get("queries", []),
+                  "raw_queries": raw,
                   "description": desc if kind in ("local", "remote", "abs") else None,
                   "queries": [q for q, _ in qs], "answers": [a for _, a in qs], "local": local}
 
@@ -381,8 +381,13 @@ def end_to_end(chk, rng, npairs, nremote):
             else:
                 base, ext = None, "../A/doc"
             try:
-                data, out, err = F.full_run_inprocess(broot, {"external": f"exta = {ext}",
-                                                              "graph": "true" if graph else "false"})
+                if k % 3 == 2:
+                    # the command-line route: -L / --external_links
+                    data, out, err = F.full_run_inprocess(broot, {"graph": "true" if graph else "false"},
+                                                          extra_args={"external": [f"exta = {ext}"]})
+                else:
+                    data, out, err = F.full_run_inprocess(broot, {"external": f"exta = {ext}",
+                                                                  "graph": "true" if graph else "false"})
             finally:
                 if server:
                     server.close()
@@ -531,7 +536,7 @@ def run(chk):
     # (1) export and round trip: FORD's obj2dict / dict2obj against the model, on generated projects A
     FIRST = [{"display": ["private"]}, {"display": ["public", "private", "protected"]},
              {"display": ["public", "protected"], "nmod": 3, "clash": True}]
-    for k in range(20 if quick else 200):
+    for k in range(18 if quick else 200):
         b = BuiltA(rng, FIRST[k] if k < len(FIRST) else ({"clash": True} if k % 3 == 0 else None))
         built.append(b)
         chk.count(("A", json.dumps(b.A, sort_keys=True)), sample={"A": b.files, "display": b.A["display"]})
@@ -548,7 +553,7 @@ def run(chk):
     # (2) loading: corpus (witnesses of the findings first), then descriptions in every state
     descriptions = [b.modules_json for b in built if b.modules_json is not None]
     corpus = json.load(open(core.VERIF / "corpus" / "C16" / "cases.json"))
-    for k in range(len(corpus["load"]) + (350 if quick else 6000)):
+    for k in range(len(corpus["load"]) + (300 if quick else 6000)):
         lc = load_case(rng, descriptions, corpus["load"][k] if k < len(corpus["load"]) else None)
         if lc is None:
             continue
@@ -556,7 +561,7 @@ def run(chk):
         meta.append(lc[1])
         chk.count(("load", lc[0]), nontrivial=True, sample=None)
     # (3) the two re-basing primitives
-    for term, m in join_cases(rng, 300 if quick else 5000):
+    for term, m in join_cases(rng, 250 if quick else 5000):
         cases.append(term)
         meta.append(m)
         chk.count(("join", m["base"], m["rel"]), nontrivial=True)
@@ -573,7 +578,7 @@ def run(chk):
         b.close()
     # (4) end to end: B built against A's output (local path; http.server on 127.0.0.1), links checked in the HTML
     e2e_witnesses(chk)
-    end_to_end(chk, rng, 16 if quick else 150, 4 if quick else 40)
+    end_to_end(chk, rng, 14 if quick else 150, 4 if quick else 40)
     if not quick:
         chk.coqchk(["Ford.Props.C16"])
 
